@@ -95,10 +95,14 @@ def expected_node(w):
     ns = t_get(w, "ns")
     if ns[0] == "present" and ns[1] is not None:
         if isinstance(ns[1], str):
+            if not _xml10_char_ok(ns[1]):
+                raise Malformed("namespace uri holds a character XML 1.0 cannot carry")
             attrs["xmlns"] = ns[1]
         elif is_tuple(ns[1]):
             d = dict((k, v) for k, v in ns[1]["t"])
             if isinstance(d.get("prefix"), str) and isinstance(d.get("uri"), str) and d["prefix"] and d["uri"]:
+                if not _xml10_char_ok(d["uri"]) or not _xml10_char_ok(d["prefix"]):
+                    raise Malformed("namespace holds a character XML 1.0 cannot carry")
                 attrs["xmlns:" + d["prefix"]] = d["uri"]
         else:
             raise Malformed("ns is neither a string nor a tuple")
@@ -321,6 +325,9 @@ def documents(thorough):
     for i, ch in enumerate(["\u0001", "\u0008", "\u000b", "\u000c", "\u001f", "\ufffe", "\uffff"]):
         yield "unrepresentable-char-in-text|%d" % i, doc(elem("r", children=P(L("a" + ch + "b"))))
         yield "unrepresentable-char-in-attribute|%d" % i, doc(elem("r", attrs=P(T(("k", "a" + ch + "b")))))
+        yield "unrepresentable-char-in-default-namespace|%d" % i, doc(elem("r", ns=P("urn:a" + ch + "b")))
+        yield "unrepresentable-char-in-prefixed-namespace|%d" % i, doc(elem("p:r", ns=P(T(("prefix", "p"), ("uri", "urn:a" + ch + "b")))))
+        yield "unrepresentable-char-in-child-namespace|%d" % i, doc(elem("r", children=P(L(elem("c", ns=P("urn:a" + ch + "b"))))))
     # a declared encoding other than the one the bytes are in
     for enc in ("ISO-8859-1", "utf-16", "us-ascii"):
         yield "encoding-declared:%s" % enc, T(("encoding", enc), ("root", elem("r", children=P(L("é")))))
